@@ -99,6 +99,37 @@ HARNESS(h_bson_end) {
   else P(r.f0 == 0 && r.f1 == 2 && r.f2 == IN_ppos + IN_bpos, "a well-sized container closes: its state is popped and its bytes are added to the enclosing document");
   WIT(r.f0 == 0); WIT(r.f0 != 0);
 }
+/* C07: BSON scalar elements (bsonspec.org): double 0x01 = 8 bytes LE, bool 0x08 = 1 byte, UTC datetime 0x09 = int64 LE, null 0x0A / undefined 0x06 = no payload,
+   int32 0x10 = 4 bytes LE SIGNED, timestamp 0x11 = uint64 LE, int64 0x12 = 8 bytes LE signed; a truncated payload is an error and nothing is reported */
+#ifndef BTYPE
+#define BTYPE 0x10
+#endif
+#ifndef BN
+#define BN 4
+#endif
+INPUT_ARR(u8, IN_bv, 9)
+enum { J_NONE = 0, J_BEGIN_OBJECT, J_END_OBJECT, J_BEGIN_ARRAY, J_END_ARRAY, J_KEY, J_NULL, J_BOOL, J_STRING, J_UINT, J_INT, J_DOUBLE, J_HALF, J_BYTES };
+HARNESS(h_bson_value) {
+  HAVOC_ARR(IN_bv, 9);
+  u8* s = malloc(BN ? BN : 1); ASSUME(s != 0); for (int i = 0; i < BN; i++) s[i] = IN_bv[i];
+  struct S_struct_2ejev ev[2]; memset(ev, 0, sizeof ev); struct S_struct_2ebvres r; memset(&r, 0, sizeof r); IRC_THROW_ALLOWED = 0;
+  k_bson_value(BTYPE, s, BN, ev, &r);
+  const int need = (BTYPE == 0x01 || BTYPE == 0x09 || BTYPE == 0x11 || BTYPE == 0x12) ? 8 : BTYPE == 0x10 ? 4 : BTYPE == 0x08 ? 1 : 0;
+  if (BN < need) { P(r.f0 != 0 && r.f1 == 0, "truncated payload: an error, no value reported"); WIT(1); return; }
+  P(r.f0 == 0 && r.f1 == 1, "complete payload: exactly one value");
+  P(r.f2 == (u64)need && r.f3 == 7 + (u64)need, "exactly the payload bytes are consumed and accounted to the enclosing document");
+  u64 le = 0; for (int i = 0; i < 8; i++) if (i < need) le |= (u64)s[i] << (8 * i);
+  u32 tnone = k_dlim_tag(0), tmilli = k_dlim_tag(1), tundef = k_dlim_tag(2);
+  if (BTYPE == 0x01) P(ev[0].f0 == J_DOUBLE && ev[0].f3 == le && ev[0].f1 == tnone, "double: the 8 bytes little-endian, bit for bit");
+  if (BTYPE == 0x08) P(ev[0].f0 == J_BOOL && ev[0].f3 == (s[0] != 0) && (s[0] > 1 || ev[0].f3 == s[0]), "boolean: 0x00 false, 0x01 true");
+  if (BTYPE == 0x0a) P(ev[0].f0 == J_NULL && ev[0].f1 == tnone, "null");
+  if (BTYPE == 0x06) P(ev[0].f0 == J_NULL && ev[0].f1 == tundef, "undefined: null tagged undefined");
+  if (BTYPE == 0x10) P(ev[0].f0 == J_INT && (s64)ev[0].f3 == (s64)(s32)(u32)le, "int32: 4 bytes little-endian, two's complement");
+  if (BTYPE == 0x12) P(ev[0].f0 == J_INT && ev[0].f3 == le && ev[0].f1 == tnone, "int64: 8 bytes little-endian, two's complement");
+  if (BTYPE == 0x09) P(ev[0].f0 == J_INT && ev[0].f3 == le && ev[0].f1 == tmilli, "UTC datetime: int64 milliseconds, tagged epoch_milli");
+  if (BTYPE == 0x11) P(ev[0].f0 == J_UINT && ev[0].f3 == le, "timestamp: uint64 little-endian");
+  WIT(need == 0 ? 1 : (le & 0x80) != 0);
+}
 /* C07: a stringref namespace (tag 256) lives exactly as long as the container that carries it */
 INPUT(u32, IN_ns)
 HARNESS(h_cbor_ns) {
